@@ -59,7 +59,7 @@ Is(e) == l <= Len(Rec) /\ Ev.ev = e /\ l' = l + 1
 
 AsyOff == [issued |-> 0, started |-> 0, incall |-> "none", waits |-> 0]
 OkInit == [c18 |-> TRUE, c20 |-> TRUE, c19 |-> TRUE, built |-> TRUE, c10mt |-> TRUE, c12s |-> TRUE,
-           c04 |-> TRUE, c05 |-> TRUE, c07 |-> TRUE, c12 |-> TRUE, c14 |-> TRUE, c13 |-> TRUE, c15 |-> TRUE]
+           c04 |-> TRUE, c05 |-> TRUE, c07 |-> TRUE, c12 |-> TRUE, c14 |-> TRUE, c13 |-> TRUE, c15 |-> TRUE, c01 |-> TRUE]
 
 Init == /\ l = 1 /\ dead = FALSE /\ lay = <<>> /\ names = <<>> /\ epoch = <<>> /\ since = <<>>
         /\ tls = <<>> /\ regs = <<>> /\ pos = <<>> /\ last = 0 /\ ok = OkInit
@@ -439,7 +439,10 @@ TrEnd ==
                    !.c14 = @ /\ e.who \in Pans /\ e.free
                                /\ (\A s \in Sys : runs[s] <= Expected(s, mode))
                                /\ (\A s \in Sys : \A p \in Pans : (regs[s].b = regs[p].b /\ DependsOn(regs, s, p)) => st[s] = "idle"),
-                   !.c05 = @ /\ WorldOf(e) = world]
+                   \* a panic that no harness-injected panic explains: the parallel run differs from the
+                   \* sequential one (C05); if it is a borrow conflict, a sibling caused it (C01)
+                   !.c05 = @ /\ WorldOf(e) = world /\ Pans # {},
+                   !.c01 = @ /\ (Pans # {} \/ ~e.borrowpanic)]
   /\ UNCHANGED pvars
 
 (***************************************************************************)
@@ -571,7 +574,7 @@ InvC18 == ok.c18
 InvC19 == ok.c19
 InvC20 == ok.c20 /\ ok.built
 \* execution
-InvC01x == dead \/ C01Run(regs, owner, st)
+InvC01x == dead \/ (C01Run(regs, owner, st) /\ ok.c01)
 InvC02x == dead \/ C02Run(regs, st)
 InvC03x == dead \/ C03Run(regs, st)
 InvC04x == ok.c04
